@@ -24,7 +24,7 @@ FOREIGN = {
     "C02": [("C02X", r"^C02:"), ("C15", r":load-"), ("C14", r":read-at-dmax|:read-via-unset-ptr")],
     "C03": [("C03X", r"^C03:"), ("C15", r":not-terminated|:no-space-accepted")],
     "C04": [("C04X", r"^C04:"), ("C15", r":not-cleared"), ("C07C", r"^C04:")],
-    "C05": [("C05X", r"^C05:"), ("C07H", r"^C05:"), ("C13", r":handler-calls-[02-9]")],  # "exactly once" also with thread-local and global handlers registered together
+    "C05": [("C05X", r"^C05:"), ("C07H", r"^C05:"), ("C13", r":handler-calls-[02-9]|:wrong-handler|:handler-code-differs|:handler-on-wrong-thread")],  # "exactly once" also with thread-local and global handlers registered together
     "C06": [("C06X", r"^C06:"), ("C15", r":no-space-accepted|:wrong-characters|:wrong-count"), ("C06B", r"^C06:")],
     "C07": [("C06B", r"^C07:")],
     "C08": [("C08X", r"^C08:"), ("C15", r":stale-slack|:not-terminated")],
